@@ -1,23 +1,17 @@
 #!/bin/bash
 # usage: seeded_eval.sh <seeded-dir-name>...   (or: all)
-# Applies each seeded change to a scratch COPY of /repo's working tree and runs every armed check on it;
-# prints which obligations fire. /repo itself is never touched.
+# Evaluates every armed check on /repo's current tree with each seeded change applied (in-process
+# variants: the patch is applied to copies of the files it touches; /repo itself is never modified)
+# and records which checks / obligations report it in seeded/<name>/eval.json.
 set -u
 here=/verif; . $here/env.sh
 names="$@"; [ "$names" = all ] && names=$(ls $here/seeded | grep -v BASE_COMMIT)
-for name in $names; do
-  d=$here/seeded/$name; [ -f "$d/patch.diff" ] || continue
-  w=$(mktemp -d /tmp/seval.XXXXXX); rsync -a --exclude .git /repo/ "$w/"
-  if ! (cd "$w" && patch -p1 -s --no-backup-if-mismatch < "$d/patch.diff" >/dev/null 2>&1); then echo "== $name: patch does not apply to current /repo tree"; rm -rf "$w"; continue; fi
-  out=$($here/bin/gtcheck -repo "$w" -evidence "" -known $here/known_findings.json 2>&1)
-  rm -rf "$w"
-  fired=$(echo "$out" | grep -E '^\s+\S+: \[(violated|undecided)\]' | sed -E 's/^.*\] //' | sort -u)
-  props=$(echo "$out" | grep '^VIOLATION' | sed -E 's/.*property=(C[0-9]+).*/\1/' | sort -u | tr '\n' ' ')
-  own=${name%%-*}; case " $props " in *" $own "*) ownhit=yes;; *) ownhit=NO;; esac
-  echo "== $name: own_property_check_detects=$ownhit detected_by=[${props}]"
-  echo "$fired" | sed 's/^/     /'
-  python3 - "$d/eval.json" "$props" "$fired" "$ownhit" "$(git -C /verif rev-parse --short HEAD)" "$(git -C /repo rev-parse --short HEAD)" <<'P'
-import json,sys,time
-json.dump({"own_property_check_detects":sys.argv[4]=="yes","detected_by":sys.argv[2].split(),"obligations":[l for l in sys.argv[3].splitlines() if l.strip()],"verif_commit":sys.argv[5],"repo_commit":sys.argv[6],"when":time.strftime('%Y-%m-%dT%H:%M:%S')},open(sys.argv[1],'w'),indent=1)
-P
+list=""; for n in $names; do [ -f "$here/seeded/$n/patch.diff" ] && list="$list,$here/seeded/$n/patch.diff"; done
+list=${list#,}; [ -z "$list" ] && exit 0
+$here/bin/mutrun -repo /repo -eval-patches "$list" -known $here/known_findings.json 2>/dev/null | while read -r line; do
+  name=$(echo "$line" | jq -r .patch | sed -E 's#.*/seeded/([^/]+)/patch.diff#\1#')
+  own=${name%%-*}
+  echo "$line" | jq --arg own "$own" --arg vc "$(git -C /verif rev-parse --short HEAD)" --arg rc "$(git -C /repo rev-parse --short HEAD)" --arg when "$(date +%Y-%m-%dT%H:%M:%S)" \
+    '{own_property_check_detects: ((.detected_by // []) | index($own) != null), detected_by: (.detected_by // []), obligations: (.obligations // []), error: (.error // null), verif_commit: $vc, repo_commit: $rc, when: $when}' > "$here/seeded/$name/eval.json"
+  echo "== $name: $(jq -c '{own:.own_property_check_detects,by:.detected_by,ob:.obligations,err:.error}' $here/seeded/$name/eval.json)"
 done
